@@ -8,12 +8,51 @@ def _trivial(line, out):
 
 def _tag(line, out):
     w = line.split(" ")
+    if w[0] == "fx":
+        return "fx:" + w[1] + ":" + out.split(":")[0]
     t = "child" if w[0] == "pc" else "inproc"
     if out.startswith("ok"):
         r = "ok"
     else:
         r = out.split(":")[0]
-    return t + ":" + r + (":files" if " F " in line else "")
+    f = ""
+    if " F " in line:
+        f = ":rawfiles" if "=" in line.split(" F ", 1)[1].split(" A ", 1)[0].split(" R ", 1)[0] else ":files"
+    if " B" in line and "B" in w:
+        f += ":twice"
+    if " O " in line:
+        no = sum(1 for x in line.split(" O ", 1)[1].split(" ") if x.count(":") == 3)
+        if no >= 17:
+            f += ":17+opts"
+    return t + ":" + r + f
+
+
+HARDENING = {
+    "1 numeric magnitudes": "every integer kind at min/max, half range, each +-2, in bases 10/16/8/2 with and without "
+                            "sign; powers of ten +-1 up to 1e20; float32 midpoints (1+2^-24, 2^24+1, max finite/2^128) "
+                            "with one-ulp and double-rounding neighbours, subnormals, float64 limits, -0, hex floats; "
+                            "durations in every unit, fractional, at +-2^63 ns and one beyond",
+    "2 size thresholds": "11..130 options on one command line; 31..1100 assignments; 16..300 positionals; up to 40 "
+                         "response files nested 14 deep; values of 100..30000 bytes; 20..300 digit numbers",
+    "3 entry points": "New(true/false), NewOption, NewGeneralOption (28 pointer types), SetSingle, SetName, SetArg, "
+                      "SetDefault, SetUsage, Parse (also twice), FatalMsg, FatalError, FatalIfError(nil / error), "
+                      "SetWriter (stdout, failing writer), Write; DisplayUsage + Options.Len/Less/Swap run on the help "
+                      "path (exit status and the presence of usage text are observed, not its wording)",
+    "4 callback outcomes": "user Value.Set returning nil, a fresh error, a reused sentinel, a typed-nil error; exit "
+                           "functions that panic in five ways around the marker function; a writer that fails; "
+                           "unreadable response files (missing, directory)",
+    "5 aliasing and reuse": "argument slices with spare capacity 0..1000 (prefix of a larger array); several "
+                            "arguments after an @file; a second Parse on the same CmdLine, naming a response file again",
+    "6 history shapes": "empty vector, only `--`, only an @file, empty file, file of blank lines, the same option "
+                        "many times, same file twice (fatal), built-ins with user options, both Parse calls",
+    "7 oracle independence": "integer/bool/string acceptance and values come from the Lean model; float and duration "
+                             "values from strconv / time.ParseDuration called by the harness with the DECLARED width "
+                             "(never through the library)",
+    "8 hangs and crashes": "children: 5 s limit, one retry, stream stops after three hangs; in-process lines: 8 s "
+                           "watchdog then a child; panics are reported as `panic`",
+    "9 no false alarms": "message and usage wording, capacity and contents of the caller's array behind the vector, "
+                         "order of usage lines are not compared",
+}
 
 
 def run(ctx):
@@ -21,12 +60,17 @@ def run(ctx):
         "strings are byte lists; `Value.Set` is modelled exactly for bool / all integer kinds / string / the harness's "
         "logging Value; for float32, float64 and time.Duration the results of strconv.ParseFloat / time.ParseDuration "
         "on every string that can reach `Set` are supplied on the operation line by the generator (section R)",
-        "response files are a finite map path -> lines; the harness writes them into a temporary directory; arguments "
-        "containing a newline or ending in CR and lines over 64 KiB are outside the domain",
+        "response files are a finite map path -> lines; the harness writes them into a temporary directory, either as "
+        "LF-terminated lines or from raw bytes (CRLF, missing final newline, blank lines, lone CR) which the model "
+        "splits like bufio.Scanner (Cmd.linesOf); lines of 64 KiB and more are outside the domain",
+        "harness-side variations that must not change the result are derived from a hash of the line: spare capacity "
+        "of the argument slice (0..1000), SetUsage/SetArg/SetDefault calls, SetWriter(os.Stdout) in the child, exit "
+        "functions that panic (string, error, runtime error, typed nil, nil) registered before/after the marker, the "
+        "kind of error the logging Value returns (fresh, sentinel, typed nil)",
         "the text of error / usage / version messages is not compared; observed are: option variables, remaining "
         "arguments, exit status (1 = fatal or help, 0 = version), that the exit went through atexit.Exit",
     ]
-    ctx.assumptions += ["response-file arguments contain no newline, do not end in CR, lines < 64 KiB"]
+    ctx.assumptions += ["response-file arguments contain no newline; lines < 64 KiB"]
     ctx.extra["not_claimed_observations"] = [
         "a bare `-` where an option is expected is silently dropped (Props.C10.observation_bare_dash_dropped)",
         "a first positional that starts with `-` or `@` without a preceding `--` is an option / response file by "
@@ -34,6 +78,7 @@ def run(ctx):
         "a response-file reference in value position is taken literally "
         "(Props.C10.observation_reference_in_value_position)",
     ]
+    ctx.extra["hardening_audit"] = HARDENING
     ctx.lean(props=["Props.C10"], drivers=["drv_c10"])
     ctx.harness("./cmd/c10")
     ctx.diff(area="parse", driver="drv_c10", n={"quick": 60000, "thorough": 800000}, shards=14,
